@@ -37,7 +37,12 @@ static std::string integrity_fail(const uint8_t *S, size_t n) {
 		if (level == 1) {
 			size_t next = u16at(S, hl);
 			size_t pos = hl + 2;
+			// the 'skip size' field of a level-1 header covers the extended headers and the data: every extended header has
+			// to fit into what the ones before it left of it
+			uint64_t skip_left = u32at(S, 7);
 			while (next != 0) {
+				if (next > skip_left) return "level-1 extended headers exceed the skip size";
+				skip_left -= next;
 				if (next < 3) return "level-1 extended header size below 3";
 				if (pos + next > n) return "level-1 extended header runs past the end of input";
 				ext.push_back({S[pos], pos + 1, next - 3});
